@@ -83,7 +83,7 @@ def order_env(env, mode):
     return dict(items)
 
 
-PLACEMENTS = ['sibling', 'nested', 'nested2', 'far']
+PLACEMENTS = ['sibling', 'nested', 'nested2', 'far']      # 'far' (outside the sources, other depth) in the thorough tier only
 INVOCATIONS = ['abs', 'rel']
 
 
@@ -461,14 +461,15 @@ def main():
     # named on the command line x {fresh, reconfigured, reconfigured again, wiped}, for projects whose configuration
     # writes files into the build directory and names them again (c06lib), outside /dev (see disk_base)
     pjobs = []
+    placements = PLACEMENTS if ck.thorough else PLACEMENTS[:3]
     for lang in (None, 'c'):
         files, owned = c6.bdio_project(lang, subgrid=(lang is None or ck.thorough))
-        for pl in PLACEMENTS:
+        for pl in placements:
             pjobs.append({'name': 'bdio%s@%s' % ('-' + lang if lang else '', pl), 'files': files, 'owned': owned, 'lang': lang, 'seeds': seeds,
                           'placement': pl, 'matrix': False, 'disk': True, 'full': ck.thorough})
     others = [('nolang', NOLANG)] + ([('rich', RICH)] + [('gen:' + r.desc, r.files) for r in gen[:6]] if ck.thorough else [])
     for nm, files in others:
-        for pl in PLACEMENTS:
+        for pl in placements:
             pjobs.append({'name': '%s@%s' % (nm, pl), 'files': files, 'seeds': seeds, 'placement': pl, 'matrix': False, 'disk': True, 'full': ck.thorough})
     mjobs = [{'name': 'nolang+machine-file', 'files': NOLANG, 'seeds': seeds, 'machine_files': True, 'matrix': False}]
     mtot = {'setups': 0, 'pairs_compared': 0, 'pipe_copies_seen': 0}
@@ -477,7 +478,8 @@ def main():
     stot = {'projects_with_source_subdirs': 0, 'stale_dirs_precreated': 0, 'compared': 0, 'skipped_unspecified': 0}
     pseen = set()
     classes = set()
-    alljobs = jobs + pjobs + mjobs
+    # --only matrix,placement,machine (debugging: no evidence is written then)
+    alljobs = (jobs if ck.want('matrix') else []) + (pjobs if ck.want('placement') else []) + (mjobs if ck.want('machine') else [])
     for i, res in enumerate(pmap(explore_and_reduce, alljobs, jobs=min(NCPU, 16 if not ck.thorough else 8), chunksize=1)):
         job = alljobs[i]
         if os.environ.get('VERIF_C06_TIMES'):
@@ -513,16 +515,16 @@ def main():
             stot['skipped_unspecified'] += res['stale_skipped']
         ck.sample({'project': res['name'], 'generated_files_compared': res['files'], 'setups': res['setups']}, cap=6)
     ck.part('matrix', seeds=len(seeds), distinct_set_orders_realised=seed_orders(seeds), env_orders=len(ENV_ORDERS), dir_orders=len(DIR_ORDERS), **tot)
-    ck.part('builddir-placement', placements=len(pseen), invocations=len(INVOCATIONS), histories_per_invocation=3, builddir_io_cells=len(c6.cells()),
+    ck.part('builddir-placement', placements=len(pseen), invocations=len(INVOCATIONS), histories=4, builddir_io_cells=len(c6.cells()),
             outside_dev=not disk_base().startswith('/dev/'), **ptot)
     ck.part('history-stale-dirs', **stot)
     ck.part('machine-file-forms', kinds=len(MF_KINDS), forms=len(MF_FORMS), **mtot)
-    ck.require(mtot['pairs_compared'] == len(MF_KINDS) * len(MF_FORMS) and mtot['pipe_copies_seen'] >= 2 * len(MF_KINDS), 'machine-file family did not run (no pipe was copied)')
-    ck.require(tot['projects'] >= 5 and tot['comparisons'] > 100, 'too few projects')
-    ck.require(len(pseen) == len(PLACEMENTS) and ptot['comparisons'] >= 7 * len(PLACEMENTS) * 2 and ptot['configure_outputs_in_builddir'] >= len(PLACEMENTS) * len(c6.cells()),
+    ck.require(not ck.want('machine') or mtot['pairs_compared'] == len(MF_KINDS) * len(MF_FORMS) and mtot['pipe_copies_seen'] >= 2 * len(MF_KINDS), 'machine-file family did not run (no pipe was copied)')
+    ck.require(not ck.want('matrix') or tot['projects'] >= 5 and tot['comparisons'] > 100, 'too few projects')
+    ck.require(not ck.want('placement') or len(pseen) == len(placements) and ptot['comparisons'] >= 5 * len(placements) * 3 and ptot['configure_outputs_in_builddir'] >= len(placements) * 2 * len(c6.cells()),
                'build-directory placement family did not run in full')
     ck.require(not disk_base().startswith('/dev/'), 'the placement family must live outside /dev (meson ignores paths that start with /dev/)')
-    ck.require(stot['compared'] >= 5, 'stale-directory history compared for too few projects')
+    ck.require(not ck.want('matrix') or stot['compared'] >= 5, 'stale-directory history compared for too few projects')
     ck.assume('hash-seed independence is decided for the listed seeds only (the seed space cannot be enumerated)')
     ck.assume('mtime/inode stability is required of configure_file outputs and generated .pc files; build.ninja and meson-info/* are only required to keep their content')
     ck.assume('generated text legitimately depends on where the build directory lies (relative paths): every comparison is between configurations at the same absolute source and build paths')
@@ -530,9 +532,9 @@ def main():
               rule='per project the full product of %d hash seeds x 3 environ orders x 3 directory-listing orders of fresh setups at identical paths (quick tier: full product for the language-less project, one dimension at a time for the others), plus cross-seed reconfigure and no-op reconfigure histories '
                    'and a fresh build directory that already holds the (empty) directories an earlier configuration would have left; '
                    'projects: two hand-written rich projects (pkgconfig, configure_file, install rules, tests, subprojects, options), a language-less one, projgen shapes and corpus projects. '
-                   'Build-directory placement family: %d placements (sibling of the sources, nested in them, nested two levels, elsewhere) x 2 ways of naming the directories (absolute; relative from the source root / from inside the build dir) '
+                   'Build-directory placement family: %d placements (sibling of the sources, nested in them, nested two levels; thorough: also elsewhere at another depth) x 2 ways of naming the directories (absolute; relative from the source root / from inside the build dir) '
                    'x {fresh, reconfigured under another seed, reconfigured again, wiped}, for a project holding the full grid of %d (writer x reader x order) ways in which configuration creates a file in the build directory and names it again (with and without a C target) and the language-less project, run outside /dev. '
-                   'distinct_nontrivial = distinct (project family or placement, number-of-generated-files bucket)' % (len(seeds), len(PLACEMENTS), len(c6.cells())),
+                   'distinct_nontrivial = distinct (project family or placement, number-of-generated-files bucket)' % (len(seeds), len(placements), len(c6.cells())),
               exhaustive=True)
 
 
